@@ -17,9 +17,9 @@
  *        one exec, prints the whole pmatch array AT&T style: `ok nsub=<n> (0,3)(?,?)`,
  *        `ok nsub=<n> NOMATCH`, or `err ## code=<rc>` (regression-table mode).
  *
- * Pattern and subject live in exact-size heap blocks (length+1 for the NUL) so that ASan
- * sees every over/under-read; pmatch is an exact-size heap block with one sentinel entry
- * after it is NOT possible under ASan's redzones, so a too-long write is caught by ASan.
+ * Pattern and subject live in exact-size heap blocks (length+1 for the NUL) and pmatch in an
+ * exact-size heap block of nmatch entries, so that ASan sees every over/under-read and every
+ * write past nmatch.
  * calloc/free are wrapped (-Wl,--wrap) while library code runs: after regfree nothing may
  * stay allocated.  argv[1] = per-exec alarm in milliseconds (default 5000). */
 #include "hcommon.h"
@@ -292,7 +292,7 @@ int main(int argc, char **argv)
 	sa.sa_handler = on_alarm;
 	sigemptyset(&sa.sa_mask);
 	sigaction(SIGALRM, &sa, NULL);
-	setvbuf(stdout, NULL, _IOFBF, 1 << 16);
+	setvbuf(stdout, NULL, _IOLBF, 1 << 16);   /* a crash must not lose finished lines */
 
 	while ((line = hc_line())) {
 		int nw;
